@@ -4,6 +4,8 @@
 //!   vharness run [--oracle <file>]               -> reads case lines on stdin, one response line each;
 //!                                                   oracle failures go to <file> as `lineno\tproperty\tmessage`
 //!   vharness tabulate types|fullwidth            -> translator input (exhaustive tabulation)
+mod bin;
+mod gen_bin;
 mod gen_pred;
 mod gen_sent;
 mod model;
@@ -27,6 +29,7 @@ fn main() {
             let thorough = tier == "thorough";
             match family.as_str() {
                 "C01" => gen_pred::gen_c01(&mut out, thorough, seed),
+                "C07" => gen_bin::gen_c07(&mut out, thorough, seed),
                 "C08" => gen_pred::gen_c08(&mut out, thorough, seed),
                 "C06" => gen_pred::gen_c06(&mut out, thorough, seed),
                 "C02" => gen_sent::gen_c02(&mut out, thorough, seed),
@@ -82,6 +85,7 @@ fn run_case(line: &str, fails: &mut Vec<(String, String)>) -> String {
         ["S", ops, oracle] => sent::run_sent(ops, oracle, fails),
         ["H", cfg, preds, ops] => pred::run_h(cfg, preds, ops, "", fails),
         ["H", cfg, preds, ops, oracle] => pred::run_h(cfg, preds, ops, oracle, fails),
+        [k, ..] if matches!(*k, "B" | "RS" | "RX" | "RF" | "WF") => bin::run(&toks, fails),
         _ => "bad-case".into(),
     }
 }
